@@ -250,6 +250,8 @@ class CoroutineProcessor(Processor):
                 del self._generators[gen]
                 self._promises[gen].value = exception.value
                 del self._promises[gen]
+                # The coroutine may have killed itself before returning
+                self._kill_queue.discard(gen)
                 continue        # Do not rotate if last item was popped
 
             # Put in wait queue if requested
